@@ -525,7 +525,26 @@ pub fn gen_file(rng: &mut Rng, cfg: &GenCfg) -> FileModel {
     let header = Some((rng.pick(&headers).to_string(), term(rng)));
     let mut rows = vec![];
     for _ in 0..cfg.rows {
-        let body = if rng.below(100) < cfg.bad_share { gen_bad(rng, cfg) } else { Body::Good(gen_good(rng, cfg)) };
+        // now and then a row derived from the previous well-formed one: an exact duplicate, the
+        // same code points with other properties/description, or the same text after other code
+        // points — what de-duplication, or a cache keyed by one column, would confuse
+        let prev_good = match rows.last() {
+            Some(Line { body: Body::Good(g), .. }) => Some(g.clone()),
+            _ => None,
+        };
+        let body = match prev_good {
+            Some(pg) if rng.chance(1, 12) => {
+                let fresh = gen_good(rng, cfg);
+                Body::Good(match rng.below(3) {
+                    0 => pg,
+                    1 => Good { lo: pg.lo, hi: pg.hi, width: pg.width, ..fresh },
+                    _ => Good { lo: fresh.lo, hi: fresh.hi, width: fresh.width, ..pg },
+                })
+            }
+            _ => {
+                if rng.below(100) < cfg.bad_share { gen_bad(rng, cfg) } else { Body::Good(gen_good(rng, cfg)) }
+            }
+        };
         rows.push(Line { body, term: term(rng), corrupt: None });
     }
     let mut m = FileModel { header, header_corrupt: None, rows };
